@@ -1,0 +1,75 @@
+//go:build verif
+
+package status
+
+// Contracts for the deductive checker in /verif (comment-only file).
+// C13: two-slot status file against the ghost observation history.
+
+// decoded content of basedir/status/<device>; a missing or syntactically
+// invalid file decodes to the zero value.
+//vc:ghost var statusFile map[string]status
+
+// Ghost observation record per device: latest successful approve,
+// latest compare.
+//vc:ghost var hasOK map[string]bool
+//vc:ghost var tOK map[string]int64
+//vc:ghost var pOK map[string]string
+//vc:ghost var hasCmp map[string]bool
+//vc:ghost var tCmp map[string]int64
+//vc:ghost var pCmp map[string]string
+//vc:ghost var chg map[string]bool
+
+//vc:spec func InvApprove(s status, hOK bool, tO int64, pO string) bool =
+//vc:   (hOK ==> s.Approve.Result == "OK" && s.Approve.Policy == pO && s.Approve.Time == tO) &&
+//vc:   (!hOK ==> s.Approve.Result != "OK" && s.Approve.Result != "WARNINGS")
+//vc:spec func InvCompare(s status, hOK bool, tO int64, hC bool, tC int64, pC string, ch bool) bool =
+//vc:   (hC && !ch ==> s.Compare.Result == "UPTODATE" && s.Compare.Policy == pC && s.Compare.Time == tC) &&
+//vc:   (hC && ch ==> s.Compare.Result == "DIFF" && 0 < s.Compare.Time && s.Compare.Time <= tC &&
+//vc:                  (hOK ==> (tO < s.Compare.Time <==> tO < tC))) &&
+//vc:   (!hC ==> s.Compare.Result == "" && s.Compare.Time == 0)
+//vc:spec func InvTimes(s status, hOK bool, tO int64, hC bool, tC int64, n int64) bool =
+//vc:   0 < n && (hOK ==> 0 < tO && tO <= n) && (hC ==> 0 < tC && tC <= n) &&
+//vc:   (hOK && hC ==> tO != tC) && s.Approve.Time <= n && s.Compare.Time <= n && 0 <= s.Approve.Time &&
+//vc:   (s.Approve.Time == s.Compare.Time ==> s.Approve.Time == 0)
+
+//vc:func Read
+//vc:  trusted
+//vc:  nopanic
+//vc:  modifies nothing
+//vc:  ensures result == statusFile[device]
+
+//vc:func write
+//vc:  trusted
+//vc:  set statusFile = store(statusFile, device, v)
+
+//vc:func SetApprove
+//vc:  requires InvApprove(statusFile[device], hasOK[device], tOK[device], pOK[device])
+//vc:  requires InvCompare(statusFile[device], hasOK[device], tOK[device], hasCmp[device], tCmp[device], pCmp[device], chg[device])
+//vc:  requires InvTimes(statusFile[device], hasOK[device], tOK[device], hasCmp[device], tCmp[device], now)
+//vc:  set hasOK = ite(failed, hasOK, store(hasOK, device, true))
+//vc:  set tOK = ite(failed, tOK, store(tOK, device, now))
+//vc:  set pOK = ite(failed, pOK, store(pOK, device, policy))
+//vc:  ensures[C13] @approveRecorded !failed ==> InvApprove(statusFile[device], hasOK[device], tOK[device], pOK[device])
+//vc:  ensures[C13] @failedApproveNoEarlierOK failed && !old(hasOK[device]) ==> InvApprove(statusFile[device], hasOK[device], tOK[device], pOK[device])
+//vc:  ensures[C13] @failedApproveKeepsEarlierOK failed && old(hasOK[device]) ==> InvApprove(statusFile[device], hasOK[device], tOK[device], pOK[device])
+//vc:  ensures[C13] @compareSlotKept InvCompare(statusFile[device], hasOK[device], tOK[device], hasCmp[device], tCmp[device], pCmp[device], chg[device])
+//vc:  ensures[C13] @timesOrdered InvTimes(statusFile[device], hasOK[device], tOK[device], hasCmp[device], tCmp[device], now)
+//vc:  ensures[C13] @otherDevicesUntouched forall d string :: d != device ==> statusFile[d] == old(statusFile[d])
+//vc:  ensures[C09] @resultTruthful statusFile[device].Approve.Result == ite(failed, "FAILED", "OK")
+
+//vc:func SetCompare
+//vc:  requires InvApprove(statusFile[device], hasOK[device], tOK[device], pOK[device])
+//vc:  requires InvCompare(statusFile[device], hasOK[device], tOK[device], hasCmp[device], tCmp[device], pCmp[device], chg[device])
+//vc:  requires InvTimes(statusFile[device], hasOK[device], tOK[device], hasCmp[device], tCmp[device], now)
+// the compare is an event of its own even if the clock is not read (sticky DIFF)
+//vc:  set now = ite(now == old(now), now + 1, now)
+//vc:  set hasCmp = store(hasCmp, device, true)
+//vc:  set tCmp = store(tCmp, device, now)
+//vc:  set pCmp = store(pCmp, device, policy)
+//vc:  set chg = store(chg, device, changed)
+//vc:  ensures[C13] @approveSlotKept InvApprove(statusFile[device], hasOK[device], tOK[device], pOK[device])
+//vc:  ensures[C13] @compareRecorded InvCompare(statusFile[device], hasOK[device], tOK[device], hasCmp[device], tCmp[device], pCmp[device], chg[device])
+//vc:  ensures[C13] @timesOrdered InvTimes(statusFile[device], hasOK[device], tOK[device], hasCmp[device], tCmp[device], now)
+//vc:  ensures[C13] @otherDevicesUntouched forall d string :: d != device ==> statusFile[d] == old(statusFile[d])
+//vc:  ensures[C09] @diffSticky changed ==> statusFile[device].Compare.Result == "DIFF"
+//vc:  ensures[C09] @uptodateRecorded !changed ==> statusFile[device].Compare.Result == "UPTODATE"
